@@ -300,7 +300,7 @@ func main() {
 		if v, ok := fc.nat["saslMaxRequestLength"]; ok {
 			consts["MaxRequestLength"] = v
 		}
-		sw.WriteString(translateFunc(f, fset, "scanLengthEncodedString", "scanLengthEncodedString", consts))
+		sw.WriteString(translateFunc(f, fset, "scanLengthEncodedString", "scanLengthEncodedString", "Bytes → Bool → Nat × Option Bytes × Bool", consts, nil))
 	} else {
 		sw.WriteString("def scanLengthEncodedString : Option (Bytes → Bool → Nat × Option Bytes × Bool) := none\n")
 	}
@@ -309,6 +309,29 @@ func main() {
 	old, _ = os.ReadFile(scanOut)
 	if string(old) != sw.String() {
 		os.WriteFile(scanOut, []byte(sw.String()), 0644)
+	}
+
+	// ---- store/store.go: checkUserFile -> Gen/CheckFile.lean
+	var cw strings.Builder
+	cw.WriteString("/- GENERATED by harness/cmd/factgen (translate.go) from /repo's source on every run. Do not edit. -/\n")
+	cw.WriteString("import Whawty.Gen.PreludeStore\nnamespace Whawty.Gen\nopen Whawty\n\n")
+	cfType := "Bytes → Bool × Bytes × Bool × Bool"
+	if fset, f := parse(filepath.Join(repo, "store", "store.go")); f != nil {
+		sconsts := map[string]string{}
+		for _, k := range []string{"adminExt", "userExt", "tmpDir"} {
+			if v, ok := fc.str[k]; ok {
+				sconsts[k] = v
+			}
+		}
+		cw.WriteString(translateFunc(f, fset, "checkUserFile", "checkUserFile", cfType, nil, sconsts))
+	} else {
+		cw.WriteString("def checkUserFile : Option (" + cfType + ") := none\n")
+	}
+	cw.WriteString("\nend Whawty.Gen\n")
+	cfOut := filepath.Join(filepath.Dir(out), "CheckFile.lean")
+	old, _ = os.ReadFile(cfOut)
+	if string(old) != cw.String() {
+		os.WriteFile(cfOut, []byte(cw.String()), 0644)
 	}
 }
 
